@@ -102,10 +102,10 @@ PROPS = {
         "engine": "dsim",
         "level": "exploration",
         "technique": "deterministic simulation with fault injection (per-attempt outcome sequences scripted by the mock cluster; mock frame history vs recorded policy decisions)",
-        "rule": "each run = 2..6 unsharded nodes, 1..12 uniquely marked requests (unprepared select/write, prepared select/insert, batch) x idempotent flag x {Default, DowngradingConsistency, Fallthrough} (wrapped in a recording RetryPolicy) x consistency incl. SERIAL/LOCAL_SERIAL; for every attempt that reaches a node the tape picks the outcome: success, every DbError kind with randomised fields (Unavailable alive/required, Read/WriteTimeout received/required/data_present/write type, Overloaded, ServerError, Truncate, Bootstrapping, Read/WriteFailure, FunctionFailure, Invalid, Syntax, Unauthorized, AlreadyExists, Config, RateLimit, unknown code), connection reset after the request was received, a write failure of the NEXT frame written on that connection while the request is unanswered (both in sequential runs only), truncated RESULT body; outcome selection per run is independent per attempt, sticky (a node keeps answering the same error) or a fixed pattern crossing target boundaries (e.g. ReadTimeout, Overloaded, ReadTimeout). Non-trivial = at least one request needed more than one attempt. Distinct = distinct (poll-sequence hash, event-log hash).",
+        "rule": "each run = 2..6 unsharded nodes, 1..12 uniquely marked requests (unprepared select/write, prepared select/insert, batch, query_iter, execute_iter) x idempotent flag x {Default, DowngradingConsistency, Fallthrough} (wrapped in a recording RetryPolicy) x consistency incl. SERIAL/LOCAL_SERIAL; for every attempt that reaches a node the tape picks the outcome: success, every DbError kind with randomised fields (Unavailable alive/required, Read/WriteTimeout received/required/data_present/write type, Overloaded, ServerError, Truncate, Bootstrapping, Read/WriteFailure, FunctionFailure, Invalid, Syntax, Unauthorized, AlreadyExists, Config, RateLimit, unknown code), connection reset after the request was received, a write failure of the NEXT frame written on that connection while the request is unanswered (both in sequential runs only), truncated RESULT body; outcome selection per run is independent per attempt, sticky (a node keeps answering the same error) or a fixed pattern crossing target boundaries (e.g. ReadTimeout, Overloaded, ReadTimeout). Non-trivial = at least one request needed more than one attempt. Distinct = distinct (poll-sequence hash, event-log hash).",
         "assumptions": COMMON_ASSUMPTIONS + [
             "oracles, from the mock's frame history per marker and the logged decisions: (a) a non-idempotent request has a further frame only after Unavailable / IsBootstrapping / ReadTimeout; (b) Default policy at serial consistency: one frame; (c) frames <= nodes + 2 (Default) / + 1 (Downgrading) / exactly 1 (Fallthrough); (d) frames <= 1 + retry decisions, nothing after DontRetry / IgnoreWriteError; same-node retries of one request <= 1 per once-per-request rule of the policy (c06.too_many_same_node_retries); (e) each re-sent frame carries the consistency the policy chose and goes to the same / another node as decided; (f) the caller sees success iff the last attempt succeeded or the write error was ignored",
-            "no speculative execution, no evictions, no request timeout in these runs; client-side stream-id exhaustion is not generated (covered by C02)",
+            "1 in 5 runs the execution profile carries a speculative execution policy (max 2, interval 30 ms) and answers take 0..120 ms: statements not marked idempotent are judged as always (they must not be speculated either), idempotent ones are not judged in those runs (speculative copies are not retry decisions); no evictions, no request timeout; client-side stream-id exhaustion is not generated (covered by C02)",
             "connection resets are scripted only when requests run one at a time, so that one request's reset cannot destroy another request's attempt on the shared connection",
         ],
         "expected_probes": ["SrvError", "Rst", "requests_retried"],
